@@ -126,10 +126,10 @@ func (srv *Session) consumeSingleCommand(ctx context.Context, reader *buffer.Rea
 	err = srv.handleCommand(ctx, conn, t, reader, writer)
 	srv.wg.Done()
 	verifPoint("cmd.done")
-	if errors.Is(err, io.EOF) {
-		return nil
-	}
 
+	// NOTE: io.EOF is returned once the connection has been terminated. The
+	// error is passed on to stop consuming commands, any command which has been
+	// sent after a terminate message should never be handled.
 	return err
 }
 
